@@ -29,6 +29,7 @@ CONSTANTS Tokens,       \* the alphabet of the enumerated strings
 BS == "\\"
 AllTokens   == {"a", "b", ".", "*", "+", "?", "(", ")", "[", "]", "{", "}", "|", "^", "$", BS}
 SmallTokens == {"a", ".", "+", "(", "|", "$", BS}
+TinyTokens  == {"a", ".", "|", BS}
 NameTokens  == {"a", "b", ".", "*", "+", "?", "(", ")", "|", "^", "$"}     \* specials a KMI whitelist file can express literally (checks/C27.py)
 (* static const std::string specials = "^.[]$()|*+?{}\\";   (src/abg-regex.cc) *)
 PinnedSpecials == {"^", ".", "[", "]", "$", "(", ")", "|", "*", "+", "?", "{", "}", BS}
